@@ -134,15 +134,16 @@ if ( jcol == MIN_COL ) {
 
     /* Test for singularity */
     if ( pivmax == 0.0 ) {
-#if 0
-        // There is no valid pivot.
-        // jcol represents the rank of U, 
-        // report the rank, let dgstrf handle the pivot
-	*pivrow = lsub_ptr[pivptr];
-	perm_r[*pivrow] = jcol;
-#endif
+	if ( nsupr > nsupc ) {
+	    /* Every candidate is exactly zero. Keep the first one as the
+	       (zero) pivot, without interchange or scaling, so that a row is
+	       recorded for this column and the remaining factorization works
+	       on consistent supernodes; U(jcol,jcol) = 0. */
+	    *pivrow = lsub_ptr[pivptr];
+	    perm_r[*pivrow] = jcol;
+	}
 	*usepr = 0;
-	SLU_VERIF_EVENT(1, jcol, 0);
+	SLU_VERIF_EVENT(1, jcol, nsupr - nsupc);
 	return (jcol+1);
     }
 
